@@ -418,10 +418,13 @@ class Differ:
                     lhs_parent=lhs, lhs_iteration=idx,
                     rhs_parent=rhs, rhs_iteration=idx,
                     parentref=idx)
-            elif lele != rele:
+            else:
+                diff_action = (DiffActions.SAME
+                               if lele == rele
+                               else DiffActions.CHANGE)
                 self._diffs.append(
                     DiffEntry(
-                        DiffActions.CHANGE, next_path, lele, rele,
+                        diff_action, next_path, lele, rele,
                         lhs_parent=lhs, lhs_iteration=idx,
                         rhs_parent=rhs, rhs_iteration=idx,
                         parentref=idx))
